@@ -779,6 +779,11 @@ func TestC06(t *testing.T) {
 				mode = "row"
 			}
 			target := rapid.IntRange(0, len(rows)-1).Draw(rt, "target")
+			// the replacing expression: of type any, or an array whose elements are any
+			looseExpr := "fromJSON(github.event.inputs.x)"
+			if mode == "row" || mode == "include" {
+				looseExpr = rapid.SampledFrom([]string{"fromJSON(github.event.inputs.x)", "fromJSON(github.event.inputs.x)", "github.event.client_payload.list.*", "fromJSON('[]')", "github.event.client_payload.list"}).Draw(rt, "looseexpr")
+			}
 			render := func(loosen bool) string {
 				var b strings.Builder
 				b.WriteString("on:\n  workflow_dispatch:\n    inputs:\n      x:\n        type: string\njobs:\n  a:\n    runs-on: ubuntu-latest\n    strategy:\n")
@@ -789,7 +794,7 @@ func TestC06(t *testing.T) {
 					for i, rw := range rows {
 						switch {
 						case loosen && mode == "row" && i == target:
-							fmt.Fprintf(&b, "        %s: ${{ fromJSON(github.event.inputs.x) }}\n", rw.key)
+							fmt.Fprintf(&b, "        %s: ${{ %s }}\n", rw.key, looseExpr)
 						case loosen && mode == "row-element" && i == target:
 							fmt.Fprintf(&b, "        %s: [%s, '${{ fromJSON(github.event.inputs.x) }}']\n", rw.key, rw.vals[0])
 						default:
@@ -798,7 +803,7 @@ func TestC06(t *testing.T) {
 					}
 					if hasInc {
 						if loosen && mode == "include" {
-							b.WriteString("        include: ${{ fromJSON(github.event.inputs.x) }}\n")
+							fmt.Fprintf(&b, "        include: ${{ %s }}\n", looseExpr)
 						} else {
 							b.WriteString("        include:\n          - extra: yes\n            " + rows[0].key + ": " + rows[0].vals[0] + "\n")
 						}
@@ -810,7 +815,7 @@ func TestC06(t *testing.T) {
 				}
 				return b.String()
 			}
-			c := &c06wfCase{Base: render(false), Loose: render(true), What: "replacing " + mode + " by ${{ fromJSON(github.event.inputs.x) }}"}
+			c := &c06wfCase{Base: render(false), Loose: render(true), What: "replacing " + mode + " by ${{ " + looseExpr + " }}"}
 			r.Eval()
 			k, m, nt := checkWorkflowLoosening(c)
 			if nt {
